@@ -160,6 +160,32 @@ func ContinuousSectionsStream(seed int64) *Stream {
 	return &Stream{Name: "continuous-sections", Pkts: ps, Bytes: EncodePkts(ps)}
 }
 
+// PrivateSectionsStream: on the PAT PID and a PMT PID, a section of two packets whose end shares its packet with
+// nothing but a user-private section (table ids 0x90, 0xc0: no table the library knows, no default data). That
+// packet is a payload unit of its own - the pending one ends in front of its pointer target - and a PacketsParser
+// is handed it like any other.
+func PrivateSectionsStream(seed int64) *Stream {
+	priv := func(tid uint8, n int) []byte {
+		b := []byte{tid, 0x70 | byte(n>>8), byte(n)}
+		for i := 0; i < n; i++ {
+			b = append(b, byte(0x21+i%0x50))
+		}
+		return b
+	}
+	var args []uint16
+	for i := 0; i < 60; i++ {
+		args = append(args, uint16(i+1), uint16(0x1000+i))
+	}
+	c0, c1 := uint8(2), uint8(11)
+	a, _, _ := packContinuous(0, [][]byte{SecPAT(modelPAT(args...), ref.SecHdr{CNI: true}), priv(0x90, 30)}, &c0)
+	// (the private section is the last thing in its packet, 0xFF filler behind it: a known section behind an unknown
+	// one in the same unit is not looked for by the library - its parsing of a unit stops at an unknown table id)
+	b, _, _ := packContinuous(0x1000, [][]byte{SecPMT(modelPMT(1, 0x100, 40), ref.SecHdr{CNI: true}), priv(0xc0, 12)}, &c1)
+	b2, _, _ := packContinuous(0x1000, [][]byte{SecPMT(modelPMT(1, 0x100, 41), ref.SecHdr{CNI: true, Version: 1}), priv(0x91, 20)}, &c1)
+	ps := append(append(append([]*ref.Pkt{}, a...), b...), b2...)
+	return &Stream{Name: "private-sections-behind-section-ends", Pkts: ps, Bytes: EncodePkts(ps)}
+}
+
 // c19Streams: the standard streams plus one with adaptation fields of every kind.
 func c19Streams(seed int64) []*Stream { return c19StreamsT(seed, false) }
 
@@ -188,7 +214,7 @@ func c19StreamsT(seed int64, thorough bool) []*Stream {
 		}
 		ss = append(ss, BuildStream("hostile-contents", lists, roundRobin(lists), nil))
 	}
-	ss = append(ss, VersionToggleStream(seed), PIDClassesStream(seed), ContinuousSectionsStream(seed), NextIndicatorStream(seed))
+	ss = append(ss, VersionToggleStream(seed), PIDClassesStream(seed), ContinuousSectionsStream(seed), NextIndicatorStream(seed), PrivateSectionsStream(seed))
 	{ // a longer multiplex: PAT, PMT, two PES PIDs with several units, a 2-packet SDT (13 packets)
 		ccs := []uint8{0, 0, 4, 9, 15}
 		pat, pmt, sdt := modelPAT(1, 0x1000), modelPMT(1, 0x100, 2), modelSDT(7)
@@ -803,7 +829,7 @@ func checkC20(c *mc.Ctx) {
 		depth = 8
 	}
 	streams := c19Streams(c.Seed)
-	streams = append(streams, &Stream{Name: "big-payloads", Bytes: BigPayloadStream(c.Seed)}, MultiSectionStream(c.Seed), NetworkPIDStream(c.Seed, 0x10), NetworkPIDStream(c.Seed, 0x50), HeadlessStream(c.Seed), BrokenSectionStream(c.Seed))
+	streams = append(streams, &Stream{Name: "big-payloads", Bytes: BigPayloadStream(c.Seed)}, MultiSectionStream(c.Seed), NetworkPIDStream(c.Seed, 0x10), NetworkPIDStream(c.Seed, 0x50), HeadlessStream(c.Seed), BrokenSectionStream(c.Seed), ESTypesStream(c.Seed))
 	for _, st0 := range streams {
 		for _, cfg := range []struct {
 			auto bool
@@ -953,6 +979,44 @@ func NetworkPIDStream(seed int64, netPID uint16) *Stream {
 	// order: NIT-A, PAT, PMT, PES, NIT-B
 	order := []int{0, 1, 2, 3, 0}
 	return BuildStream(fmt.Sprintf("network-pid-%#x-before-pat", netPID), lists, order, nil)
+}
+
+// ESTypesStream: a PMT that announces elementary streams of the types that are not plain audio / video PES
+// (private sections 0x05, private PES data 0x06, DSM-CC sections 0x0b, user private 0x80 and 0xff, next to MPEG-2
+// video): every one of those PIDs carries a section-shaped unit before the PAT, a PES packet behind the PMT and a
+// second section-shaped unit after that. What the Demuxer has learnt from the PMT is not what decides how an
+// elementary PID is assembled.
+func ESTypesStream(seed int64) *Stream {
+	types := []astits.StreamType{0x05, 0x06, 0x0b, 0x80, 0xff, 0x02}
+	pmt := &astits.PMTData{ProgramNumber: 1, PCRPID: 0x200}
+	var lists [][]*ref.Pkt
+	ccs := make([]uint8, len(types)+2)
+	for k, t := range types {
+		pid := uint16(0x200 + k)
+		pmt.ElementaryStreams = append(pmt.ElementaryStreams, &astits.PMTElementaryStream{ElementaryPID: pid, StreamType: t})
+		ccs[k] = uint8(3 * k)
+		sdtA, sdtB := modelSDT(1), modelSDT(2)
+		sdtA.TransportStreamID, sdtB.TransportStreamID = uint16(0x10+k), uint16(0x20+k)
+		var l []*ref.Pkt
+		l = append(l, Packetize(PSIUnit(pid, 0, [][]byte{SecSDT(sdtA, ref.SecHdr{CNI: true})}, nil), nil, &ccs[k], true)...)
+		l = append(l, Packetize(PESUnit(pid, 0xbd, pesPayload(140+k, 60, seed), uint64(k+1), true), nil, &ccs[k], false)...)
+		l = append(l, Packetize(PSIUnit(pid, 0, [][]byte{SecSDT(sdtB, ref.SecHdr{CNI: true, Version: 1})}, nil), nil, &ccs[k], true)...)
+		lists = append(lists, l)
+	}
+	n := len(types)
+	lists = append(lists, Packetize(PSIUnit(0, 0, [][]byte{SecPAT(modelPAT(1, 0x1000), ref.SecHdr{CNI: true})}, nil), nil, &ccs[n], true))
+	lists = append(lists, Packetize(PSIUnit(0x1000, 0, [][]byte{SecPMT(pmt, ref.SecHdr{CNI: true})}, nil), nil, &ccs[n+1], true))
+	var order []int
+	for k := 0; k < n; k++ {
+		order = append(order, k)
+	}
+	order = append(order, n, n+1)
+	for r := 0; r < 2; r++ {
+		for k := 0; k < n; k++ {
+			order = append(order, k)
+		}
+	}
+	return BuildStream("elementary-stream-types", lists, order, nil)
 }
 
 // VersionToggleStream: tables that change over time and come back to a version number they had before with
